@@ -31,6 +31,7 @@ RULE += " Added after the seeded rounds: " + 'Stub agents report a generated con
 RULE += ' Unknown verdict words (empty, fragments and extensions of PERMIT / EXECUTE); `bulk`: 999..1003 distinct permitted requests first (bounds of the decision cache and the result log), then requests that revisit evicted and surviving prompts.'
 RULE += ' The prompt pool contains near-duplicates that differ only in characters an encoder or normaliser might drop or fold (NFC/NFD, zero-width, NUL, NBSP, full-width, case, lone surrogates): each is a different request for the cache and the token hash; a surrogate prompt may be refused with UnicodeEncodeError.'
 RULE += ' Bookkeeping calls between requests (clear_cache, get_statistics).'
+RULE += ' `slow` cases: the loop is built with timeout_seconds = 5 ms and some agent calls take 20 ms of real time - whatever the loop does about a slow agent, each request is judged by the verdicts its own agents gave for it. Agents also raise exceptions that carry no message.'
 EXHAUSTIVE_NOTE = {"quick": "6x7x7 verdict table x (4 prompts x cache on/off + 3 confidence corners) = 3234 cells, complete",
                    "thorough": "6x7x7 verdict table x (4 prompts x cache on/off + 3 confidence corners) = 3234 cells, complete"}
 
@@ -49,8 +50,14 @@ _req = st.one_of(st.tuples(_prompt, st.sampled_from(_ALLK), st.sampled_from(_ALL
 
 def strategy(tier):
     # "bulk": that many distinct permitted requests first - histories longer than the decision cache and the result log (1000 entries each)
-    return st.fixed_dictionaries({"logic": st.sampled_from(LOGICS), "cache": st.booleans(), "bulk": st.sampled_from([0] * 40 + [1001, 1003]),
-                                  "reqs": st.lists(_req, min_size=1, max_size=10)})
+    plain = st.fixed_dictionaries({"logic": st.sampled_from(LOGICS), "cache": st.booleans(), "bulk": st.sampled_from([0] * 40 + [1001, 1003]),
+                                   "reqs": st.lists(_req, min_size=1, max_size=10)})
+    _verdict = st.sampled_from(["EXECUTE", "PERMIT", "BLOCK", "BLOCK", "FAILURE", "UNKNOWN"])
+    slow_req = st.tuples(st.sampled_from(_POOL[:8]), _verdict, _verdict, st.just(0.9), st.just(0.9),
+                         st.sampled_from(["", "", "", "slow-executor", "slow-assessor", "slow-both"])).map(list)
+    slow = st.fixed_dictionaries({"logic": st.sampled_from(LOGICS), "cache": st.booleans(), "bulk": st.just(0), "slow": st.just(True),
+                                  "reqs": st.lists(slow_req, min_size=2, max_size=5)})
+    return st.integers(0, 39).flatmap(lambda k: slow if k in (7, 23, 31) else plain)
 
 
 def enumerate_cases(tier):
@@ -77,7 +84,9 @@ def enumerate_cases(tier):
 def judge(case):
     out = Outcome()
     logic = case["logic"]
-    loop, ex, ass, _budget = make_loop(logic, breaker=False, cache=case["cache"])
+    # `slow`: the loop is built with a tiny timeout_seconds and some agent calls take longer than that (real time: 20 ms against 5 ms).
+    # Whatever the loop does about a slow agent, each request is judged by the verdicts its own agents gave for it
+    loop, ex, ass, _budget = make_loop(logic, breaker=False, cache=case["cache"], agent_timeout=0.005 if case.get("slow") else None)
     stored = {}      # prompt -> snapshot of the reply the cache may serve
     hashes = {}      # prompt -> token hash
     last_pair = {}
@@ -96,6 +105,7 @@ def judge(case):
                 last_pair.clear()
             continue
         ex.kind, ass.kind = e, a
+        ex.delay, ass.delay = (0.02 if len(req) > 5 and req[5] in ("slow-executor", "slow-both") else 0.0), (0.02 if len(req) > 5 and req[5] in ("slow-assessor", "slow-both") else 0.0)
         ex.conf, ass.conf = (req[3], req[4]) if len(req) >= 5 else (0.9, 0.9)     # a verdict is a verdict at any reported confidence
         c0 = (ex.calls, ass.calls)
         surrogate = any(0xD800 <= ord(ch) <= 0xDFFF for ch in prompt)
